@@ -5,7 +5,8 @@
    grow with data.  gpytorch's floating-point evaluation is tied to Part 2 by the correspondence check
    (extracted Posterior model on the model's own kernel values vs predict()). *)
 From Coq Require Import QArith List Bool Arith Permutation.
-From VOPy Require Import GPWrapper GPWrapperProofs.
+From VOPy Require Import GPWrapper GPWrapperProofs GPWRefine.
+From VOPyGen Require Import Gen_gpw.
 From VOPy Require Posterior PosteriorTab.
 Open Scope nat_scope.
 Import ListNotations.
@@ -41,6 +42,22 @@ Theorem C15_factory_helpers_up_to_date : forall (sample : Type) m train initial 
   nth k (held sample (factory sample m train initial)) [] = initial.
 Proof. exact factory_up_to_date. Qed.
 Print Assumptions C15_factory_helpers_up_to_date.
+
+(* the store / conditioning changes REGENERATED from vopy/models/gpytorch.py (add_sample, clear_data, update of the multi-output
+   wrappers and of the model list, incl. the per-row objective form) are the steps of the bookkeeping machine above *)
+Theorem C15_regenerated_wrapper_methods_are_the_machine_steps : forall (sample : Type) st rows k dims drows,
+  gen_multi_add_sample sample st rows = gstep sample st (AddAll sample rows) /\
+  gen_multi_clear_data sample st = gstep sample st (ClearData sample) /\
+  gen_multi_update sample st = gstep sample st (UpdateModel sample) /\
+  gen_list_add_sample_single sample st k rows = gstep sample st (AddObj sample k rows) /\
+  gen_list_add_sample_rows sample st dims drows
+    = grun sample st (map (fun d => AddObj sample d (map snd (filter (fun r => Nat.eqb (fst r) d) drows))) dims) /\
+  gen_list_clear_data sample st = gstep sample st (ClearData sample) /\
+  gen_list_update sample st = gstep sample st (UpdateModel sample).
+Proof.
+  intros. repeat split; try reflexivity. apply gen_list_add_rows_is_run.
+Qed.
+Print Assumptions C15_regenerated_wrapper_methods_are_the_machine_steps.
 
 (* ------------------------------------------------------------------ Part 2: the posterior algebra *)
 Module P := Posterior.
